@@ -513,6 +513,8 @@ func errClass(e string) string {
 		{"not enough arguments", "not-enough-arguments"},
 		{"cannot call pointer method", "pointer-method-on-value"},
 		{"multiple-value", "multi-value-in-single-value-context"},
+		{"division by zero", "constant-division-by-zero"},
+		{"duplicate case", "duplicate-case"},
 		{"cannot take address", "not-addressable"},
 		{"cannot assign to", "not-assignable"},
 		{"cannot convert", "cannot-convert"},
